@@ -81,6 +81,29 @@ def small_rand(rnd, maxr=8, maxc=10, kind="small", ranged=True, allow_empty=True
                     if v != 0:
                         r.coef[c] = v
         m.rows.append(r)
+    if rnd.random() < 0.7:
+        # make it feasible: pick a point inside the bounds and move every rhs so that the row holds there
+        x0 = {}
+        for c in m.cols:
+            if c.lo == NINF and c.up == INF:
+                x0[c] = rnd_num(rnd, "int")
+            elif c.lo == NINF:
+                x0[c] = c.up - abs(rnd_num(rnd, "int"))
+            elif c.up == INF:
+                x0[c] = c.lo + abs(rnd_num(rnd, "int"))
+            else:
+                x0[c] = c.lo + (c.up - c.lo) * F(rnd.randint(0, 4), 4)
+        for r in m.rows:
+            act = sum((v * x0[c] for c, v in r.coef.items()), F(0))
+            gap = abs(rnd_num(rnd, "int")) if rnd.random() < 0.6 else F(0)
+            if r.sense == "L":
+                r.rhs = act + gap
+            elif r.sense == "G":
+                r.rhs = act - gap
+            elif r.sense == "E":
+                r.rhs = act
+            else:
+                r.rhs = act - min(gap, r.range)
     return _names(m)
 
 
@@ -364,7 +387,7 @@ def family(rnd, name):
     if name == "planted-unb":
         return planted_unbounded(rnd, rnd.randint(1, 6), rnd.randint(1, 6))
     if name == "medium":
-        return structured(rnd, rnd.randint(20, 60), rnd.randint(20, 80))
+        return structured(rnd, rnd.randint(15, 40), rnd.randint(15, 50))
     if name == "tiny":
         return tiny_from_index(rnd.randrange(tiny_space_size()))
     raise ValueError(name)
